@@ -5,7 +5,7 @@ import json
 import os
 
 from .. import build, framework as fw, grammar, hxb
-from ..hxb import REQ, RES, CLOSE
+from ..hxb import REQ, RES, CLOSE, REQ_GAP
 
 SIZES = {'quick': 80000, 'thorough': 2000000}
 DATA, DATA_OTHER, TUNNEL, ERROR = 9, 5, 4, 3
@@ -137,6 +137,15 @@ def gen_scenario(r):
         ops += [(RES, c) for c in cut(r, server_payload, r.pick(['whole', 'random', 'bytes']))]
     if payload_kind == 'tls' and r.chance(0.5):
         ops += [(REQ, tls_like(r, 30)), (RES, tls_like(r, 30))]
+    sc['gap'] = 0
+    if payload_kind == 'tls' and (200 <= status <= 299) and r.chance(0.25):
+        # a missing segment in the tunnelled request stream (reported as a gap), before or inside the first tunnel bytes
+        last_res = max(i for i, o in enumerate(ops) if o[0] == RES and o[1] is not None)
+        cand = [i for i, o in enumerate(ops) if o[0] == REQ and sum(len(q[1]) for q in ops[:i] if q[0] == REQ) >= len(head)]
+        if cand:
+            at = r.pick(cand[:2])
+            ops.insert(at + r.randrange(2), (REQ_GAP, r.pick([1, 100, 1460])))
+            sc['gap'] = 1
     ops.append((CLOSE, None))
     sc['layout'] = layout
     return sc, ops
@@ -159,6 +168,8 @@ def judge(d, sc):
     req_offered = 0
     decided = False       # a NUL/LF of the client payload has been offered after the response head was complete
     for k, (dr, ln, rc, consumed, gap) in enumerate(calls):
+        if gap:
+            continue          # a gap carries no bytes of the scenario's streams; what it returns is not judged here
         took = consumed if rc == DATA_OTHER else ln
         if dr == 0:
             before = cum_req
@@ -184,7 +195,7 @@ def judge(d, sc):
     tunnel_case = (sc['payload'] == 'tls' and (200 <= status <= 299)) or status == 101
     if tunnel_case and tunnel_expected_from is not None:
         for k in range(tunnel_expected_from, len(calls)):
-            if calls[k][2] != TUNNEL:
+            if calls[k][2] != TUNNEL and not calls[k][4]:
                 errs.append(('not_tunnel', 'call %d (%s, %d bytes) returned %d after tunnel mode should have been entered at call %d' % (k, 'res' if calls[k][0] else 'req', calls[k][1], calls[k][2], tunnel_expected_from)))
                 break
         if len(txs) != 1 + npre:
